@@ -39,6 +39,7 @@ from .aggregate_states import VibronicState
 #from .molecules import Molecule
 from ..core.managers import Manager
 from ..core.managers import eigenbasis_of
+from ..core.managers import energy_units
 from ..core.saveable import Saveable
 
 from .opensystem import OpenSystem
@@ -2715,7 +2716,19 @@ class AggregateBase(UnitsManaged, Saveable, OpenSystem):
 
             
 
-    def get_DensityMatrix(self, condition_type=None,
+    def get_DensityMatrix(self, *args, **kwargs):
+        """Returns density matrix according to specified condition
+
+        See `_get_DensityMatrix` for the parameters. The energies are
+        compared with the thermal energy in internal units, whatever energy
+        units are current for the caller.
+
+        """
+        with energy_units("int"):
+            return self._get_DensityMatrix(*args, **kwargs)
+
+
+    def _get_DensityMatrix(self, condition_type=None,
                                 relaxation_theory_limit="weak_coupling",
                                 temperature=None,
                                 relaxation_hamiltonian=None, DD=None):
